@@ -213,6 +213,11 @@ static void build(const CaseSpec& cs, Built& b) {
       b.nodes.push_back(e);
     }
     b.root = byId.at(cs.root);
+    // Scheduler::registerSTRL (Scheduler.cpp:66-71)
+    if (b.root->getType() != ExpressionType::EXPR_OBJECTIVE) {
+      throw exceptions::ExpressionConstructionException(
+          "The expression passed to the scheduler is not an objective function.");
+    }
     b.model = G::makeModel();
     b.capMap = std::make_shared<CapacityConstraintMap>((Time)cs.gran, cs.overlap);
     auto cfg = std::make_shared<OptimizationPassConfig>();
